@@ -92,7 +92,7 @@ func H_C15_faults() {
 	e, srv := st.e, st.env.srv
 	w0 := srv.writes
 	srv.failAt = w0 + 1 + vChoose("fail_at", vC15MaxWrites+1) // position of the failing Write; past the end = no fault
-	switch vChoose("fail_kind", 4) {
+	switch vChoose("fail_kind", 5) {
 	case 0:
 		srv.failCode = 0 // transport error
 	case 1:
@@ -101,6 +101,8 @@ func H_C15_faults() {
 		srv.failCode = int32(codes.AlreadyExists) // tolerated by modifyUP4ForwardingConfiguration for table writes
 	case 3:
 		srv.failCode = int32(codes.NotFound) // e.g. the switch lost the entry a MODIFY names; nothing is applied
+	case 4:
+		srv.failCode = vJunkDetail // UNKNOWN whose per-update details are not p4.v1.Error messages: still a failed write
 	}
 	tolerated := srv.failCode == int32(codes.AlreadyExists)
 	p, f, q := vSessionRules(0)
